@@ -35,3 +35,9 @@ namespace pika::detail {
         get_handler()(loc, expr, msg);
     }
 }    // namespace pika::detail
+
+#if defined(PIKA_VERIF)
+namespace pika::verif {
+    std::atomic<hook_type> hook{nullptr};
+}    // namespace pika::verif
+#endif
